@@ -1,5 +1,6 @@
 """C04 — garbage is reclaimed and a finished run leaves nothing behind (static clauses)."""
 from mirlib import *
+from mirlib import _split_generic_args
 from rules import vmx, psc, c03, tables
 from rules.psc import sym, strip
 from rules.shared import deref
@@ -27,6 +28,8 @@ def run(ctx, rep):
     rep.rule('R04.4', 'sweep exactness: every object removed from the managed list is freed, nothing else is')
     rep.rule('R04.5', 'the caller can release a returned result completely: free_recursive frees every element and the object')
     check_free_recursive(ctx, rep, 'R04.5')
+    rep.rule('R04.6', 'a box whose content owns memory is dropped in place before it is deallocated')
+    check_box_release(ctx, rep, 'R04.6')
     # ---- R04.1 ---------------------------------------------------------------------------------
     news = [(b, t) for b, t in fn.calls() if callee_name(t) == GCN + 'new']
     rep.ob(len(news) == 1, 'R04.1', fn.path, 'one collector per run', 'run() creates exactly one collector (found %d)' % len(news), fn.loc())
@@ -116,6 +119,60 @@ def run(ctx, rep):
            'free_recursive also frees the elements of an array; elements are managed objects that the collector frees itself, so using it inside the crate releases them twice: %s' % frc, 'src/object.rs')
     zs = [t for b, t in sw.calls() if callee_name(t).endswith('iter_zeros')]
     rep.ob(len(zs) == 1, 'R04.4', sw.path, 'frees the unmarked', 'the objects removed are those whose mark bit is clear (iter_zeros)', sw.loc())
+
+
+def check_box_release(ctx, rep, rule):
+    """every `dealloc(p, Layout::new::<T>())` of a box whose content owns memory (T needs drop: a Vec / String inside) is preceded, on
+    every path, by `drop_in_place::<T>` of the same address — otherwise the header goes back to the allocator and the buffer it
+    owns stays allocated.  Helpers the release was moved into are spliced in (generic parameters instantiated)."""
+    F = ctx.facts()
+    n = 0
+    for f_ in F.all_fns:
+        if f_.crate != 'lib':
+            continue
+        des = [(b, t) for b, t in f_.calls() if callee_name(t).endswith('alloc::dealloc') or callee_name(t) == 'alloc::alloc::dealloc']
+        if not des:
+            continue
+        for p in AbsInt(F, f_, max_paths=2000).run():
+            if p.exit != 'return':
+                continue
+            for i, c in enumerate(p.calls):
+                if not (c[1].endswith('alloc::dealloc') and len(c[2]) == 2):
+                    continue
+                lay = c[2][1]
+                lay = p.env.get(lay[1], lay) if lay[0] == 'ref' else lay
+                ty = None
+                if lay[0] == 'call' and lay[1].endswith('Layout::new'):
+                    # the type argument of Layout::new::<T>
+                    for b2, t2 in f_.calls():
+                        if b2 == lay[3]:
+                            ga = _split_generic_args(t2['callee'].get('generic_args'))
+                            ty = ga[0] if ga else None
+                adt = F.adts.get(ty) if ty else None
+                n += 1
+                if adt is None:
+                    rep.bad(rule, f_.path, 'dealloc with layout', 'cannot tell which box type is released here (%s)' % show(lay)[:60], f_.loc())
+                    continue
+                if not adt.get('needs_drop'):
+                    rep.good(rule, f_.path, 'release of %s' % ty.split('::')[-1], 'plain data: nothing to drop before the deallocation', f_.loc())
+                    continue
+                def noblk(v):
+                    # Object::as_ptr is a pure accessor: two calls on the same object give the same address
+                    if isinstance(v, tuple) and v and v[0] == 'call':
+                        if v[1].startswith('core::ptr::') and v[1].endswith(('::cast', '::cast_mut', '::cast_const')) and len(v[2]) == 1:
+                            return noblk(uncast(v[2][0]))       # a pointer cast keeps the address
+                        return ('call', v[1], tuple(noblk(uncast(a)) for a in v[2]))
+                    return v
+                addr = noblk(uncast(c[2][0]))
+                dropped = False
+                for c2 in p.calls[:i]:
+                    if c2[1].endswith('drop_in_place') and c2[2]:
+                        a2 = noblk(uncast(c2[2][0]))
+                        if a2 == addr:
+                            dropped = True
+                rep.ob(dropped, rule, f_.path, 'release of %s' % ty.split('::')[-1],
+                       'the content of the box (which owns a buffer) is dropped in place before the box is deallocated', f_.loc())
+    rep.count('box_releases', n)
 
 
 def check_free_recursive(ctx, rep, rule):
